@@ -12,10 +12,10 @@ RULE = ("BFS to closure of (real Packetizer/Depacketizer/PacketFIFO/Arbiter/Disp
         "under every valid/ready/sel choice per cycle; distinct = distinct product states")
 ASSUMPTIONS = [
     "2-state zero-delay FHDL semantics of litex.gen.sim",
-    "header layouts from the listed menu (fields of 4/8/16/24 bits, byte and bit offsets, gaps, swap on/off); _lsb/_msb split fields not covered",
+    "header layouts from the listed menu (fields of 4/8/16/24 bits, byte and bit offsets, gaps, swap on/off, one layout with an _lsb/_msb split field)",
     "data widths 8/16/32 (64/128 with fewer layouts), payload 1..3 beats, header field values from a two-pattern alphabet per packet",
     "PacketFIFO fed packets no longer than its payload depth (longer packets block by design)",
-    "Depacketizer fed packets longer than their header (shorter ones are malformed input)",
+    "stand-alone Depacketizer: base runs feed at least one beat after the beat that completes the header; '+residue_packet' (unaligned headers) also packets whose last beat is the one carrying the header tail; packets without any payload byte are malformed input",
     "base runs of the unaligned Packetizer: no producer pause inside a packet, packets of >= 2 beats; the excluded behaviours are explored by the '+mid_packet_pause' / '+single_beat_packet' configurations",
 ]
 
@@ -180,7 +180,11 @@ class DepacketizerModel(QueueModel):
                 pend = pend[self.bpc:]
         if last:
             if not outs:
-                raise MachineryError("environment produced a packet without payload")
+                if not pend or len(hb) < self.hdr.length:
+                    raise MachineryError("environment produced a packet without payload")
+                # the packet ends inside the realignment residue: its only payload beat holds the bytes behind the header tail
+                r, m = mk_beat(pend, self.bpc)
+                outs.append([r, m, None, 0, self.hdr.decode(hb)])
             outs[-1][3] = 1
             hb, pend = (), ()
         return (hb, pend), [tuple(o) for o in outs]
@@ -263,6 +267,12 @@ def add_framing(hname, L, dw, swap, tier):
     reg(nm, tier, lambda nm=nm: StreamHarness(nm, lambda: packet.Depacketizer(rd(), pd(), ref.litex()),
                                               lambda H: DepacketizerModel(ref, bpc), M=4, idbits=idb, nparam=1,
                                               minpkt=hb + 1 + (0 if aligned else 0), maxpkt=hb + 3))
+    if not aligned and words >= 1:
+        # payload shorter than what is left of the header-completing beat: `last` comes with the header tail
+        nm = "Depacketizer" + base + "+residue_packet"
+        reg(nm, tier, lambda nm=nm: StreamHarness(nm, lambda: packet.Depacketizer(rd(), pd(), ref.litex()),
+                                                  lambda H: DepacketizerModel(ref, bpc), M=4, idbits=idb, nparam=1,
+                                                  minpkt=hb, maxpkt=hb + 2))
 
 
 for hname, L, dw, swap, tier in [
